@@ -252,7 +252,73 @@ def run_alloc(pid, tier, seed):
     return res
 
 
+CONC_TRACES = {"parse": ("TraceParse.tla", "TraceParse.cfg"), "values": ("TraceValues.tla", "TraceValues.cfg"),
+               "floats": ("TraceFloats.tla", "TraceFloats.cfg"), "trees": ("TraceTrees.tla", "TraceTrees.cfg"),
+               "handlers": ("TraceHandlers.tla", "TraceHandlers.cfg")}
+
+
+def conc_once(vh, tier, seed):
+    racedir = os.path.join(vlib.workdir(), "race_%d" % (int(time.time() * 1000) % 1000000))
+    os.makedirs(racedir)
+    g = vlib.run_gen(vh, "conc", tier, seed, shards=1,
+                     extra_env={"GORACE": "log_path=%s/race halt_on_error=0 exitcode=0" % racedir})
+    races = []
+    for f in sorted(os.listdir(racedir)):
+        txt = open(os.path.join(racedir, f)).read()
+        if "DATA RACE" in txt:
+            races.append(txt)
+    return g, races
+
+
+def run_conc(pid, tier, seed):
+    vh = vlib.build_harness(race=True, name="vh_race")
+    r1 = [vlib.model_check("Concurrent.tla", "MC_Concurrent.cfg"),
+          vlib.model_check("Concurrent.tla", "MC_Concurrent_shared.cfg", expect_violation="SequentialResults")]
+    g, races = conc_once(vh, tier, seed)
+    res = {"r1": r1, "gens": [g], "bads": [], "consumed": 0}
+    if "hang" in g:
+        res["hang"] = g["hang"]
+        return res
+    for fam, (tm, cfg) in CONC_TRACES.items():
+        files = [f for f in g["files"] if os.path.basename(f).startswith("conc_%s_" % fam)]
+        if not files:
+            continue
+        merged = os.path.join(g["dir"], "merged_%s.ndjson" % fam)
+        # keep 16 shards: concatenate per-goroutine files round-robin into shards
+        shards = [open(os.path.join(g["dir"], "m_%s_%02d.ndjson" % (fam, i)), "w") for i in range(min(16, len(files)))]
+        for i, f in enumerate(files):
+            shards[i % len(shards)].write(open(f).read())
+        names = [s.name for s in shards]
+        for s_ in shards:
+            s_.close()
+        bads, consumed, _ = vlib.validate(tm, cfg, names)
+        # concurrency-dependent wrong results are attributed to C18
+        for b in bads:
+            b["conc"] = True
+        res["bads"] += bads
+        res["consumed"] += consumed
+    res["cov_goroutines"] = g["stats"].get("extra", {}).get("goroutines")
+    res["cov_rounds_gomaxprocs"] = g["stats"].get("extra", {}).get("rounds")
+    res["cov_race_reports"] = len(races)
+    if races:
+        # "reproduces" for a schedule-dependent observation: the same driver and seed show a race again
+        again = []
+        for attempt in range(3):
+            _, again = conc_once(vh, tier, seed)
+            if again:
+                break
+        if not again:
+            raise Infra("a data race report did not reproduce in 3 further runs:\n" + races[0][:3000])
+        outdir = os.path.join(vlib.VERIF, "out", pid)
+        os.makedirs(outdir, exist_ok=True)
+        path = os.path.join(outdir, "race-report.txt")
+        open(path, "w").write(races[0])
+        res["direct_violations"] = [("data_race", path)]
+    return res
+
+
 FAMILIES = {
+    "conc": {"run": run_conc},
     "alloc": {"run": run_alloc},
     "hist": {"run": run_hist},
     "compose": {"run": run_compose},
@@ -478,6 +544,19 @@ CHECKS.update({
                           "by sync.Pool's per-P arrays); adversarial shapes are the ones the policy model's counterexamples suggest, scaled up"},
 })
 
+CHECKS.update({
+    "C18": {"family": "conc", "level": "exploration",
+            "rule": "12 goroutines x rounds with GOMAXPROCS 1,2,4,16 (thorough: 8 rounds), each goroutine running the parse, tree, traversal, "
+                    "integer, float, string, token, Decode and sanitising observers over the same shared read-only inputs in its own random "
+                    "order with private buffers/readers/destinations; binary built with -race; distinct = distinct (observer, input)",
+            "technique": "TLA+ model of independent processes (R1: results are functions of own arguments; negative config with shared scratch) + every concurrent result validated by TLC against the sequential specifications (R3); Go race detector as the observer of the no-race clause",
+            "level_text": "Real interleavings are sampled by the Go scheduler, not enumerated; each recorded result of each goroutine is "
+                          "validated by TLC against the sequential specification of the call (that is 'exactly the results they produce one "
+                          "after another'), and the race detector's reports, re-confirmed by re-running the same seed, decide the data-race clause.",
+            "level_note": "the harness shares nothing between goroutines (own files, statistics, no locks) so that it adds no happens-before edges; "
+                          "TLC enumerates interleavings only of the abstract model, where the property is immediate"},
+})
+
 NOT_APPLICABLE = {}
 
 
@@ -557,12 +636,12 @@ def run_check(pid, tier, seed):
     spec = CHECKS[pid]
     fam = spec["family"]
     F = FAMILIES[fam]
-    res = F["run"](pid, tier, seed)
-    vh = vlib.build_harness()
     outdir = os.path.join(vlib.VERIF, "out", pid)
     os.makedirs(outdir, exist_ok=True)
     for f in os.listdir(outdir):
         os.remove(os.path.join(outdir, f))
+    res = F["run"](pid, tier, seed)
+    vh = vlib.build_harness()
     known = [k for k in vlib.load_known() if k["prop"] == pid]
     violations, known_hits, seen_sigs = [], [], set()
     if "hang" in res:
@@ -570,7 +649,10 @@ def run_check(pid, tier, seed):
         json.dump({"property": pid, "clause": "no_termination", "case": res["hang"]}, open(path, "w"))
         violations.append(path)
         print("VIOLATION property=%s replay=%s" % (pid, path))
-    mine = [b for b in res.get("bads", []) if b["prop"] == pid or b["clause"] == "panic"]
+    for clause, path in res.get("direct_violations", []):
+        violations.append(path)
+        print("VIOLATION property=%s replay=%s" % (pid, path))
+    mine = [b for b in res.get("bads", []) if b["prop"] == pid or b["clause"] == "panic" or b.get("conc")]
     # reproduce at most a bounded number of distinct failing cases
     for b in mine:
         case = case_of(b)
@@ -581,6 +663,18 @@ def run_check(pid, tier, seed):
         if len(violations) >= 5:
             break
         ok, fresh = reproduce(b["trace"], case, b["prop"], b["clause"], vh)
+        if not ok and b.get("conc"):
+            # wrong only under concurrency: the same driver and seed must show a wrong result again
+            vhr = vlib.build_harness(race=True, name="vh_race")
+            for attempt in range(3):
+                g2, _ = conc_once(vhr, tier, seed)
+                tm, cfg = b["trace"]
+                fam2 = [k for k, v in CONC_TRACES.items() if v == b["trace"]][0]
+                files2 = [f for f in g2["files"] if os.path.basename(f).startswith("conc_%s_" % fam2)]
+                bads2, _, _ = vlib.validate(tm, cfg, files2)
+                if any(x["prop"] == b["prop"] and x["clause"] == b["clause"] for x in bads2):
+                    ok = True
+                    break
         if not ok:
             raise Infra("BAD event did not reproduce on replay (prop %s clause %s): %s"
                         % (b["prop"], b["clause"], json.dumps(case)[:500]))
